@@ -119,11 +119,14 @@ func datastoreKey(directory string, dbAddress address.Address) string {
 
 func (l *levelDownCache) Destroy(directory string, dbAddress address.Address) error {
 	keyPath := datastoreKey(directory, dbAddress)
-	l.muCaches.Lock()
-	defer l.muCaches.Unlock()
 
-	if wc, ok := l.caches[keyPath]; ok {
-		wc.Close()
+	l.muCaches.Lock()
+	wc, ok := l.caches[keyPath]
+	l.muCaches.Unlock()
+
+	// Close takes the lock itself
+	if ok {
+		_ = wc.Close()
 	}
 
 	if directory != InMemoryDirectory {
